@@ -1,11 +1,12 @@
 #!/bin/bash
-# usage: tools/seedrun.sh <Cxx> [extra props comma-separated]  -> tests variants a and b from /tmp/seed-out
+# usage: [SEED_OUT=/tmp/seed9 VARIANTS="n r"] tools/seedrun.sh <Cxx> [extra props comma-separated]  -> tests the variants (default a b) from $SEED_OUT (default /tmp/seed-out)
 id=$1; extra=$2
-for v in a b; do
-  [ -f /tmp/seed-out/$id/$v/patch.diff ] || continue
+O=${SEED_OUT:-/tmp/seed-out}
+for v in ${VARIANTS:-a b}; do
+  [ -f $O/$id/$v/patch.diff ] || continue
   props=$id; [ -n "$extra" ] && props="$id,$extra"
-  python3 /verif/tools/seedtest.py /tmp/seed-out/$id/$v --props $props > /tmp/seed-out/$id/$v/result.json 2>/tmp/seed-out/$id/$v/result.err
-  python3 - "$id/$v" /tmp/seed-out/$id/$v/result.json <<'PY'
+  python3 /verif/tools/seedtest.py $O/$id/$v --props $props > $O/$id/$v/result.json 2>$O/$id/$v/result.err
+  python3 - "$id/$v" $O/$id/$v/result.json <<'PY'
 import json,sys
 try:
     d=json.load(open(sys.argv[2]))
